@@ -213,10 +213,6 @@ func cmdCheck(args []string) int {
 		}
 	}
 	tGen := time.Since(t0).Seconds() - tLoad
-	discharge(all, filepath.Join(work, "smt"), timeout, runtime.NumCPU())
-	res.Obls = all
-
-	// ---- decide ----
 	basePath := filepath.Join(vd, "baseline", *prop+".json")
 	var base []baselineEntry
 	if b, err := os.ReadFile(basePath); err == nil {
@@ -226,6 +222,15 @@ func cmdCheck(args []string) int {
 	for _, e := range base {
 		baseNames[e.Name] = e
 	}
+	for _, o := range all {
+		if _, ok := baseNames[o.Name]; ok {
+			o.InBaseline = true
+		}
+	}
+	discharge(all, filepath.Join(work, "smt"), timeout, runtime.NumCPU())
+	res.Obls = all
+
+	// ---- decide ----
 	known, fixed := loadKnown()
 	isKnown := func(name string) *knownFinding {
 		for i := range known {
@@ -256,6 +261,16 @@ func cmdCheck(args []string) int {
 			continue
 		}
 		_, inBase := baseNames[o.Name]
+		if o.Status == "candidate" {
+			// undecided by the solvers; a candidate counterexample exists: it is a violation
+			// only if it reproduces on the real code
+			if rp, ok := tryReplay(filepath.Join(work, "replay"), *prop, o); ok {
+				o.Detail += " | candidate counterexample reproduced on the real code: " + rp
+				viols = append(viols, viol{o, "candidate counterexample (solver undecided) reproduced on the real code"})
+				continue
+			}
+			o.Status = "unknown"
+		}
 		switch {
 		case inBase:
 			viols = append(viols, viol{o, "obligation discharged on the baseline tree and now " + o.Status})
@@ -496,24 +511,24 @@ func writeEvidence(path string, res *checkResult, nObl, nDis, nCover, nCovered i
 		"violations":  len(res.Violations),
 		"assumptions": assumptions,
 		"coverage": map[string]any{
-			"obligations":           nObl,
-			"discharged":            nDis,
-			"checker_cmd":           fmt.Sprintf("/verif/bin/gowp check -prop %s -tier %s", res.Prop, res.Tier),
-			"trusted_base":          assumptions[:4],
-			"covers_checked":        nCover,
-			"covers_satisfiable":    nCovered,
-			"discharged_by_backend": bySolver,
-			"solver_cpu_s":          roundTo(solverSecs, 2),
-			"load_s":                roundTo(tLoad, 2),
-			"generate_s":            roundTo(tGen, 2),
+			"obligations":              nObl,
+			"discharged":               nDis,
+			"checker_cmd":              fmt.Sprintf("/verif/bin/gowp check -prop %s -tier %s", res.Prop, res.Tier),
+			"trusted_base":             assumptions[:4],
+			"covers_checked":           nCover,
+			"covers_satisfiable":       nCovered,
+			"discharged_by_backend":    bySolver,
+			"solver_cpu_s":             roundTo(solverSecs, 2),
+			"load_s":                   roundTo(tLoad, 2),
+			"generate_s":               roundTo(tGen, 2),
 			"functions_under_contract": fnsUnder,
-			"per_obligation":        perObl,
-			"undecided":             res.Undecided,
-			"known_findings":        res.Known,
-			"violating_obligations": res.Violations,
-			"baseline_obligations":  nBase,
-			"fixed_findings":        fixed,
-			"samples":               samples,
+			"per_obligation":           perObl,
+			"undecided":                res.Undecided,
+			"known_findings":           res.Known,
+			"violating_obligations":    res.Violations,
+			"baseline_obligations":     nBase,
+			"fixed_findings":           fixed,
+			"samples":                  samples,
 		},
 	}
 	b, _ := json.MarshalIndent(ev, "", " ")
